@@ -1403,7 +1403,7 @@ impl<'p, C: SimCfg> World<'p, C> {
         ggrs::verif::set_wall_offset_ms(self.plan.nodes[i].wall_offset_ms as u128);
         // the exact lead is a real number of frames; the estimate is an integer within one frame of it
         let mut lead_milli = if i == 0 { ts.lead_milli } else { -ts.lead_milli };
-        if cfg.max_prediction == 0 {
+        if cfg.max_prediction == 0 || ts.lead_from_counters {
             // lockstep: whoever ticks first stalls until the other side's first inputs are there, so
             // the lead is not what the tick schedule says. It is read off the two frame counters:
             // at this node's tick the other node is (time since its last tick) into its next frame.
